@@ -16,7 +16,7 @@ from .. import graph_hist as H
 from .. import tsprops as T
 
 LEVEL = 'proof'
-NEEDS = ['Base', 'Names', 'Graph', 'GraphObs', 'GraphTS', 'GraphInv', 'Matrix', 'MatrixProofs', 'Skeleton', 'SkeletonProofs', 'Closed', 'CorrMatrix',
+NEEDS = ['SFMatrix', 'Extracted', 'SourceFacts', 'Base', 'Names', 'Graph', 'GraphObs', 'GraphTS', 'GraphInv', 'Matrix', 'MatrixProofs', 'Skeleton', 'SkeletonProofs', 'Closed', 'CorrMatrix',
          'TSGraph', 'LagMatrix', 'LagMatrixProofs', 'CorrLagMatrix']
 
 
